@@ -42,7 +42,7 @@ func extremeGap(r *hx.RNG, magnitudesAdd bool) (real, surrogate *opCase) {
 		k.op = "Sub"
 	}
 	k.p = int64(r.Range(1, 60))
-	gap := int64(1)<<31 + int64(r.Intn(3)*r.Range(0, 3000000))
+	gap := int64(1)<<31 + []int64{1, 5, 1000, int64(r.Range(1, 3000000))}[r.Intn(4)] // (beyond 2^31: at exactly 2^31 a wrapped int32 difference stays negative)
 	xle := gap/2 + int64(r.Range(0, 1000))
 	x := r.Finite(r.Range(1, 40), xle)
 	y := r.Finite(r.Range(1, 20), xle-gap)
